@@ -94,6 +94,8 @@ impl St<'_> {
 
 fn bound(sel: u8, raw: usize, len: usize) -> Bound<usize> {
     let i = pick(raw, len + 3); // 0..=len+2: includes out of range
+    // (rarely the largest index: `..=usize::MAX` / `(Excluded(usize::MAX), ..)` overflow when resolved)
+    let i = if sel >= 250 { usize::MAX } else { i };
     match sel % 4 {
         0 => Bound::Unbounded,
         1 | 2 => Bound::Included(i),
